@@ -18,11 +18,11 @@ META = {
     "exhaustive": True,
 }
 GEN = ("scale_typegen",)
-LAST0 = "ok_or(Punctuated::last(P0.segments),substitutes::error(Spanned::span(P0),TypeSubstitutionErrorKind::EmptySubstitutePath))?.arguments"
+LAST0 = "ok_or(Punctuated::last(P0.segments),error::TypeSubstitutionError{kind:TypeSubstitutionErrorKind::EmptySubstitutePath,span:Spanned::span(P0)})?.arguments"
 SRC = ("match(%s){PathArguments::None=>Vec::new();"
        "PathArguments::AngleBracketed($)=>Iterator::collect(Iterator::map(Punctuated::iter(%s@PathArguments::AngleBracketed.0.args),"
-       "|1|{ok_or(substitutes::get_valid_from_substitution_type(C1_0),substitutes::error(Spanned::span(C1_0),TypeSubstitutionErrorKind::InvalidFromType))}))?;"
-       "PathArguments::Parenthesized($)=>return Err(substitutes::error(Spanned::span(%s@PathArguments::Parenthesized.0),TypeSubstitutionErrorKind::ExpectedAngleBracketGenerics))}") % (LAST0, LAST0, LAST0)
+       "|1|{ok_or(substitutes::get_valid_from_substitution_type(C1_0),error::TypeSubstitutionError{kind:TypeSubstitutionErrorKind::InvalidFromType,span:Spanned::span(C1_0)})}))?;"
+       "PathArguments::Parenthesized($)=>return Err(error::TypeSubstitutionError{kind:TypeSubstitutionErrorKind::ExpectedAngleBracketGenerics,span:Spanned::span(%s@PathArguments::Parenthesized.0)})}") % (LAST0, LAST0, LAST0)
 TGT = SRC.replace("P0.segments", "P1.segments").replace("Spanned::span(P0)", "Spanned::span(P1)").replace("get_valid_from_substitution_type", "get_valid_to_substitution_type").replace("InvalidFromType", "InvalidToType")
 
 
@@ -129,6 +129,6 @@ def check(ctx):
     # key ignores generics
     expect_fn(ctx, "C07.8", "key/idents-only", "substitutes::path_segments", "Iterator::collect(Iterator::map(Punctuated::iter(P0.segments),|1|{ToString::to_string(C1_0.ident)}))",
               "the key of a rule is the list of segment idents (generic arguments ignored)", "scale_typegen")
-    expect_fn(ctx, "C07.8", "key/of-source", "TypeSubstitutes::parse_path_substitution",
-              "Ok((substitutes::path_segments(P0),substitutes::Substitute{param_mapping:TypeSubstitutes::parse_path_param_mapping(P0,P1)?,path:P1}))",
-              "rule = (key of the source path, Substitute{target path unchanged, mapping parsed from source/target})", "scale_typegen")
+    expect_fn(ctx, "C07.8", "key/of-source", "TypeSubstitutes::insert",
+              "{HashMap::insert(P0.substitutes,substitutes::path_segments(P1),substitutes::Substitute{param_mapping:TypeSubstitutes::parse_path_param_mapping(P1,P2.0)?,path:P2.0});Ok(())}",
+              "rule = (key of the source path, Substitute{target path unchanged, mapping parsed from source/target}); the private per-rule parser is looked through", "scale_typegen")
